@@ -12,6 +12,7 @@ EXPLANATION = ('Structural conditions of C11: the three high-water marks of Stat
                'the live id issuers (State.job_id_counter, Core.worker_id_counter, AutoAllocState queue counter, ServerInfo.server_uid); the '
                'issuers increment on every path and nobody else writes them.')
 NOT_DECIDED = ['ids that a pruned journal no longer mentions (outside the statement); nothing numeric is needed beyond the shapes checked']
+RELATED = {'C12': ['R12.1~kept unconditionally', 'R12.1~^(JobOpen|Submit)\\|job$', 'R12.3', 'R12.5']}
 ASSUMPTIONS = []
 MARKS = ('max_job_id', 'max_worker_id', 'max_queue_id')
 
